@@ -6,6 +6,8 @@ is and waits for a command from the controlling parent on stdin:
     die      die right here (os._exit: no cleanup handler of any kind runs)
     mid      (os.write only) write half of the data, then die
     go-die   execute the call, report the event, then die
+    fail     the call fails with OSError instead of being executed (the process lives on)
+    mid-fail (os.write only) half of the data is written, then the call fails with OSError
 
 After its final message the child waits: "again <now>" makes the same process construct the Template once
 more (the earlier Template objects stay alive), anything else ends it.
@@ -13,6 +15,7 @@ more (the earlier Template objects stay alive), anything else ends it.
 argv: ROOT NOW USE_WRITER    protocol: one JSON object per line on stdout / one command per line on stdin
 """
 import builtins
+import errno
 import json
 import os
 import shutil
@@ -62,6 +65,13 @@ def point(name, call, event, mid=None):
             if mid is not None:
                 mid()
             os._exit(77)
+        if cmd in ("fail", "mid-fail"):
+            # the call FAILS (the process lives on and sees the error): nothing is done, or half of the write is
+            half = cmd == "mid-fail" and mid is not None
+            if half:
+                mid()
+            _say({"ev": "fail", "at": name, "mid": half})
+            raise OSError(errno.ENOSPC if half else errno.EIO, "injected failure of " + name)
         try:
             r = call()
         except BaseException as ex:  # the call itself failed: report, re-raise into mako
